@@ -186,7 +186,8 @@ class Statement(object):
         """
         try:
             self.code_pkg = self.operand.translate()
-            self.fixed_size = not (self.code_pkg.additional_needs_resolution or self.code_pkg.post_byte_choices)
+            # only a PCR operand whose offset depends on a label has a size that is still open
+            self.fixed_size = not self.code_pkg.post_byte_choices
         except Exception as error:
             raise TranslationError(str(error), self)
 
@@ -338,6 +339,11 @@ class Statement(object):
                 relative_address = self.calculate_address_offset(self.operand.left, statements).int
             else:
                 relative_address = statements[self.code_pkg.additional.int].code_pkg.address.int
+
+            if not self.code_pkg.post_byte_choices:
+                # a label as constant offset of a pointer register: the address itself is the offset
+                self.code_pkg.additional = NumericValue(relative_address, size_hint=4)
+                return
 
             start_address = statements[this_index].code_pkg.address.int
             jump_amount = relative_address - start_address - self.code_pkg.size
